@@ -22,7 +22,11 @@ class SymNum:
             return v
         if isinstance(v, float) and v == math.e:
             return SymNum(("e",), IV.point(v), v)
-        return SymNum(("c", v), IV.point(float(v)), v)
+        try:
+            f = float(v)
+        except OverflowError:       # an int beyond the double range
+            f = math.inf if v > 0 else -math.inf
+        return SymNum(("c", v), IV.point(f), v)
 
     def __eq__(self, other):
         if isinstance(other, SymNum):
@@ -93,6 +97,13 @@ class ExcObj:
         return f"<{self.name} @{self.origin}>"
 
 
+class UStr(str):
+    """A string handed in by the (modelled) caller.  Every UStr is its own object, as strings
+    built at run time are: code that compares names with `is` instead of `==`, or relies on
+    interning, sees two equal caller strings as different objects."""
+    __slots__ = ()
+
+
 class ClassRef:
     __slots__ = ("ci",)
 
@@ -100,10 +111,10 @@ class ClassRef:
         self.ci = ci
 
     def __eq__(self, o):
-        return isinstance(o, ClassRef) and o.ci.name == self.ci.name
+        return isinstance(o, ClassRef) and o.ci.key == self.ci.key
 
     def __hash__(self):
-        return hash(("ClassRef", self.ci.name))
+        return hash(("ClassRef", self.ci.key))
 
     def __repr__(self):
         return f"<class {self.ci.name}>"
